@@ -56,6 +56,7 @@ func needSep(a, b string) bool {
 func (t Toks) Canon() string {
 	var sb strings.Builder
 	for i, x := range t {
+		x = strings.ReplaceAll(x, "\x02", " ")
 		if i > 0 {
 			if t[i-1] == "{" || t[i-1] == "}" || x == "}" || strings.HasSuffix(t[i-1], "\n") {
 				if !strings.HasSuffix(t[i-1], "\n") {
@@ -97,6 +98,14 @@ func (t Toks) Layout(r *Rng, dense bool) string {
 				}
 				sb.WriteString(w)
 			}
+		}
+		for strings.Contains(x, "\x02") {
+			// the parts of a multi-part string literal may be separated by any layout (at least nothing)
+			sep := ""
+			for k := r.N(4); k > 0; k-- {
+				sep += wsPieces[r.N(len(wsPieces))]
+			}
+			x = strings.Replace(x, "\x02", sep, 1)
 		}
 		sb.WriteString(x)
 	}
